@@ -212,14 +212,17 @@ class BodyMixin:
                 dct = forms
             key = item.name
 
-            if key in post:
-                el = post[key]
-                if key not in listified:
-                    el = post[key] = dct[key] = [el]
-                    listified.add(key)
-                el.append(it)
-            else:
-                post[key] = dct[key] = it
+            # `post` collects everything, `dct` only the values of its own kind:
+            # a text field and an upload may share a name
+            for dst in (post, dct):
+                if key in dst:
+                    el = dst[key]
+                    if (id(dst), key) not in listified:
+                        el = dst[key] = [el]
+                        listified.add((id(dst), key))
+                    el.append(it)
+                else:
+                    dst[key] = it
         return post
 
     @cache_in('environ[ ombott.request.forms ]', read_only=True)
